@@ -156,13 +156,22 @@ pub fn op_node(name: &'static str, inner: VS, cfg: &Cfg) -> VS {
                 3 => vec(k.clone(), 0..=4).prop_map(move |v| wrap(name, Value::Array(v))),
                 2 => vec(k.clone(), 0..=4).prop_map(move |v| wrap(name, json!([v]))),
                 1 => vec(k.clone(), 0..=3).prop_map(move |v| wrap(name, json!({"merge": [v]}))),
-                1 => k.prop_map(move |v| wrap(name, v)),
+                1 => k.clone().prop_map(move |v| wrap(name, v)),
+                // key lists that are computed from the data
+                1 => (vec(k.clone(), 0..=2), inner.clone()).prop_map(move |(v, e)| wrap(name, json!({"merge": [v, e]}))),
+                1 => (inner.clone(), k).prop_map(move |(e, v)| wrap(name, json!([e, v]))),
             ]
             .boxed()
         }
         "missing_some" => {
             let k = key_expr(&cfg.var_keys);
-            (0u64..5, vec(k, 0..=4), any::<bool>()).prop_map(move |(n, keys, computed)| if computed { wrap(name, json!([n, {"merge": [keys]}])) } else { wrap(name, json!([n, keys])) }).boxed()
+            prop_oneof![
+                4 => (0u64..5, vec(k.clone(), 0..=4), any::<bool>()).prop_map(move |(n, keys, computed)| if computed { wrap(name, json!([n, {"merge": [keys]}])) } else { wrap(name, json!([n, keys])) }),
+                // threshold and key list computed from the data
+                1 => (inner.clone(), vec(k.clone(), 0..=3)).prop_map(move |(n, keys)| wrap(name, json!([{"+": [n, 0]}, keys]))),
+                1 => (0u64..4, vec(k, 0..=2), inner.clone()).prop_map(move |(n, keys, e)| wrap(name, json!([n, {"merge": [keys, e]}]))),
+            ]
+            .boxed()
         }
         "if" | "?:" => list(name, vec(i, 0..=6).boxed()),
         "and" | "or" => prop_oneof![7 => list(name, vec(i.clone(), 1..=4).boxed()), 1 => i.prop_filter("bracket-less operand must not be an array literal", |x| !x.is_array()).prop_map(move |x| wrap(name, x))].boxed(),
